@@ -50,7 +50,9 @@ class Family(object):
     self.gen, self.run, self.lit = gen, run, lit
     self.nontrivial = nontrivial or (lambda c, o: True)
     self.known = known or (lambda c, o: None)
-    self.timeout = timeout
+    # generous lower bound: a loaded machine (16 checks in parallel) must never turn a slow case into a 'Timeout'
+    # observation on code where the property holds; a genuine endless loop costs three such waits, then 1 s per case
+    self.timeout = max(timeout, 60)
     self.preamble = preamble
 
 
